@@ -1,8 +1,12 @@
 #!/bin/bash
 # applies every seeded change to /repo in turn, runs the quick check of its property, reverts; prints the ones NOT caught
+# usage: tools/run_all_mutants.sh [regex on directory names] [time box in seconds]
 cd /verif
-miss=0; tot=0
+filter="${1:-.}"; box="${2:-0}"; t0=$(date +%s)
+miss=0; tot=0; skipped=0
 for d in seeded/*/; do
+  echo "$d" | grep -Eq "$filter" || continue
+  if [ "$box" -gt 0 ] && [ $(( $(date +%s) - t0 )) -gt "$box" ]; then skipped=$((skipped+1)); continue; fi
   pid=$(python3 -c "import json;print(json.load(open('$d/meta.json'))['property'])")
   ( cd /repo && git apply "/verif/$d/patch.diff" ) || { echo "NOAPPLY $d"; miss=$((miss+1)); continue; }
   out=$(./check "$pid" 2>&1); rc=$?
@@ -11,4 +15,4 @@ for d in seeded/*/; do
   if [ $rc -ne 1 ] || ! echo "$out" | grep -q "VIOLATION property=$pid"; then echo "MISSED $d rc=$rc"; miss=$((miss+1)); fi
 done
 for t in translate/*.py; do python3 $t; done
-echo "mutants run=$tot not-caught=$miss"
+echo "mutants run=$tot not-caught=$miss skipped-by-time-box=$skipped"
